@@ -45,7 +45,11 @@ Record CInv (c : call) : Prop := {
   CI_inflight : c_inflight c = true -> c_fut c = CCancelled /\ c_fcancel c = true /\ c_captured c = true;
   CI_noscope : enteredp (c_phase c) = false -> c_scope_cancelled c = false /\ c_inflight c = false;
   CI_basefail : donep (c_phase c) = false -> c_base_fail c = false;
-  CI_notified : c_notified c = true -> c_fut c = CCancelled /\ donep (c_phase c) = true
+  CI_notified : c_notified c = true -> c_fut c = CCancelled /\ donep (c_phase c) = true;
+  (* start_task: a status that was resolved without started() is exactly what task_done derives from the future *)
+  CI_startfail : c_kind c = KStart -> c_started c = None -> c_status c <> CPending ->
+                 c_fut c <> CPending /\
+                 c_status c = match c_fut c with CExc e => CExc e | CCancelled => CCancelled | _ => CExc e_nostart end
 }.
 
 Ltac dmatch :=
@@ -78,8 +82,8 @@ Ltac cinv_start H :=
   let H4 := fresh "Hopen" in let H5 := fresh "Hclosed" in let H6 := fresh "Hkind" in
   let H7 := fresh "Hstarted" in let H8 := fresh "Hstatus" in let H9 := fresh "Hearly" in
   let H10 := fresh "Hscope" in let H11 := fresh "Hinfl" in let H12 := fresh "Hnoscope" in
-  let H13 := fresh "Hbasefail" in let H14 := fresh "Hnotified" in
-  destruct H as [H1 H2 H3 H4 H5 H6 H7 H8 H9 H10 H11 H12 H13 H14].
+  let H13 := fresh "Hbasefail" in let H14 := fresh "Hnotified" in let H15 := fresh "Hstartfail" in
+  destruct H as [H1 H2 H3 H4 H5 H6 H7 H8 H9 H10 H11 H12 H13 H14 H15].
 
 Lemma cinv_status_on_done c :
   CInv c -> landedp (c_phase c) = true -> c_fut c <> CPending -> CInv (status_on_done c).
@@ -1519,3 +1523,37 @@ Example ex_no_land_after_loop_end_hyp :
   host (final step (init true true true) ops) = HLeft.
 Proof. vm_compute. repeat split. Qed.
 
+
+(* ====================================================================================================
+   F47: "delivers exactly its exception" does not depend on what kind of exception it is
+   ==================================================================================================== *)
+(* start_task: if the task ends before started() was called, start_task's caller gets exactly what task_done
+   derives from the call's future: the task's own exception e (whatever e is -- in particular the distinguished
+   code e_falsy of an exception whose truth value is False), a cancellation, or, for a task that returned,
+   the "exited without calling started()" error; and the call's future holds that same exception. *)
+Theorem portal_start_task_failure_propagated f4 fc s k : reach f4 fc s ->
+  c_kind (calls s k) = KStart -> donep (c_phase (calls s k)) = true -> c_started (calls s k) = None ->
+  c_status (calls s k) = match c_fut (calls s k) with
+                         | CExc e => CExc e | CCancelled => CCancelled | _ => CExc e_nostart end /\
+  (forall e, c_outcome (calls s k) = Some (ORaise e) -> c_fcancel (calls s k) = false ->
+     c_fut (calls s k) = CExc e /\ c_status (calls s k) = CExc e).
+Proof.
+  intros R Hk Hd Hs. pose proof (reach_inv _ _ _ R) as I. pose proof (I_call s I k) as H.
+  destruct (portal_future_single_assignment _ _ s k R) as (_ & _ & _ & _ & _ & _ & Hraise & _ & _ & Hdone).
+  destruct (Hdone Hd) as [Hnp Hst].
+  destruct (CI_startfail _ H Hk Hs (Hst Hk)) as [_ E]. split; [exact E|].
+  intros e Ho Hf. pose proof (Hraise e Ho Hf) as Ef. split; [exact Ef|]. rewrite E, Ef. reflexivity.
+Qed.
+
+Example ex_falsy_exception_delivered :
+  (* sync call, coroutine call, start_task failing before started(), start_task failing after started() *)
+  let s := final step (init true true true)
+    [ThreadIssue 0 KSync; ThreadIssue 1 KCoro; ThreadIssue 2 KStart; ThreadIssue 3 KStart;
+     ThreadLand 0; ThreadLand 1; ThreadLand 2; ThreadLand 3;
+     TaskStep 0 WNormal None (FRaise e_falsy); TaskStep 1 WNormal None (FRaise e_falsy);
+     TaskStep 2 WNormal None (FRaise e_falsy); TaskStep 3 WNormal (Some 7%Z) (FRaise e_falsy)] in
+  c_fut (calls s 0) = CExc e_falsy /\ c_fut (calls s 1) = CExc e_falsy /\
+  c_fut (calls s 2) = CExc e_falsy /\ c_status (calls s 2) = CExc e_falsy /\ caller_code (calls s 2) = 6%Z /\
+  c_fut (calls s 3) = CExc e_falsy /\ c_status (calls s 3) = CResult 7%Z /\
+  donep (c_phase (calls s 2)) = true /\ c_started (calls s 2) = None /\ c_kind (calls s 2) = KStart.
+Proof. vm_compute. repeat split. Qed.
